@@ -307,6 +307,18 @@ def closer_scenarios(ctx):
                         # the main loop is the one that sees the connection drop
                         sc2 = dict(sc, stall_after_send=[0, drop + 50], tag=sc["tag"] + "|closer-stalled-after-write")
                         scs.append(sc2)
+    # close() from another thread while NO connection exists: during the wait for the next attempt after a loss (and after a
+    # refused attempt) — the run ends, no further connection is made, on_close is called once; built-in and external loop
+    for seq in (("Ee",), ("Er",), ("R",), ("Ee", "R")):
+        for tc in (300, 700, 1200):
+            for ext in (False, True):
+                for sched in ("", "1", "01"):
+                    sc = scenario(seq, TPS, "close")
+                    sc.update(closer=[tc + (230 if seq[0].startswith("E") else 0)], sched=sched, horizon=30 * TPS, kind="closer-gap",
+                              tag=f"closer-in-the-gap@{tc}|{'-'.join(seq)}|rc=1s" + ("|ext" if ext else ""))
+                    if ext:
+                        sc["ext"] = True
+                    scs.append(sc)
     return scs
 
 
